@@ -36,7 +36,7 @@ CHECKS = {
    design="4/C09"),
  "C10": dict(engine="poolsim", technique="deterministic simulation of the real WorkerPools under shuttle's seeded scheduler (random, PCT in thorough) with a model channel standing in for crossbeam; traces of whole connections between arbitrary endpoints x pool configurations x schedules; multiset and per-connection-order comparison with the sequential analyzer",
    text="Exploration over schedules: for each generated (trace, workers 1..16, batch, timeout, queue >= trace) scenario several scheduler seeds x iterations are executed; dispatcher, workers (real worker_loop code incl. batching, timeout and disconnect branches) and collector interleave at every atomic, channel, mutex and spawn operation. Results must equal the sequential analyzer's as a multiset and keep per-connection (TCP: per-sending-host) order; a Dropped outcome with sufficient queues is itself a violation.",
-   note="shuttle explores sequentially consistent interleavings only; the model channel's timeouts fire only on an empty queue (abstract time) with a bounded budget per receiver. Pools are driven through WorkerPool::dispatch and drained by dropping the pool; the analyzers' process_parallel wrappers (which call shutdown) are not part of this check. The simulated wall clock is frozen during an execution.",
+   note="shuttle explores sequentially consistent interleavings only; the model channel's timeouts fire only on an empty queue (abstract time) with a bounded budget per receiver. Three scenarios in four drive WorkerPool::dispatch directly and drain by dropping the pool; one in four goes through the analyzer's own parallel packet loop (with_config + init_pool + process_with via H3), including TCP's shutdown-at-end-of-input. The simulated wall clock is frozen during an execution.",
    design="4/C10"),
  "C11": dict(engine="netsim", technique="deterministic simulation with a counting allocator as cost oracle: long never-fingerprinting connections (endless HTTP heads, binary after SYN, oversized/unfinished TLS records, application data after a non-hello record, random bytes) in parallel on one analyzer, simulated clock advancing past the TTLs; allocation and live-heap sampled around every delivered packet",
    text="Exploration: per delivered segment the bytes allocated while handling it and the heap bytes live after it are compared with fixed bounds (live <= connections x 512 KiB + 1 MiB; per packet <= 4 MiB + 64 x packet length; median of a connection's last tenth <= 2 x first tenth + 2 MiB). Quick: up to 2000 segments per connection; thorough: up to 100000. Capacities 1/4/64/1000, 1..12 parallel connections, segment sizes 1..1460.",
